@@ -1,10 +1,10 @@
 import Spydr.IR.SepOps0
 namespace Spydr.IR
 
-theorem lowEq_refl (s : S) (off : OId) : LowEq s s off :=
+theorem outEq_refl (s : S) (R : OId → Prop) : OutEq s s R :=
   ⟨fun _ _ => by simp, fun _ _ _ _ => rfl, fun _ _ _ _ => rfl⟩
 
-theorem lowEq_trans {a b c : S} {off : OId} (h1 : LowEq a b off) (h2 : LowEq b c off) : LowEq a c off := by
+theorem outEq_trans {a b c : S} {R : OId → Prop} (h1 : OutEq a b R) (h2 : OutEq b c R) : OutEq a c R := by
   obtain ⟨a1, a2, a3⟩ := h1
   obtain ⟨b1, b2, b3⟩ := h2
   refine ⟨fun x hx => ?_, fun i q hi hq => (a2 i q hi hq).trans (b2 i q hi hq), fun d i hd hi => (a3 d i hd hi).trans (b3 d i hd hi)⟩
@@ -12,31 +12,27 @@ theorem lowEq_trans {a b c : S} {off : OId} (h1 : LowEq a b off) (h2 : LowEq b c
   have q := b1 x hx
   grind
 
-theorem mem_flat_high (s : S) (off d y : OId) (hs : Sep s off) (hd : off ≤ d) (h : y ∈ s.flat d) : off ≤ y := by
+theorem mem_flat_in (s : S) (R : OId → Prop) (d y : OId) (hs : Sep s R) (hd : R d) (h : y ∈ s.flat d) : R y := by
   simp only [S.flat, List.mem_flatMap] at h
   obtain ⟨p, hp, hq⟩ := h
-  have h1 := hs.ports d p hp
-  have h2 := hs.pins p y hq
-  have hd' : ¬ d < off := Nat.not_lt.mpr hd
-  have hp' : ¬ p < off := fun h => hd' (h1.2 h)
-  exact Nat.not_lt.mp (fun h => hp' (h2.2 h))
+  exact (hs.pins p y hq).1 ((hs.ports d p hp).1 hd)
 
-theorem partner_high (s : S) (off d d' q q' : OId) (hs : Sep s off) (hd : off ≤ d) (hd' : off ≤ d')
-    (h : s.partner d d' q = some q') : off ≤ q ∧ off ≤ q' := by
+theorem partner_in (s : S) (R : OId → Prop) (d d' q q' : OId) (hs : Sep s R) (hd : R d) (hd' : R d')
+    (h : s.partner d d' q = some q') : R q ∧ R q' := by
   have := lookup_zip_mem _ _ q q' h
-  exact ⟨mem_flat_high s off d q hs hd this.1, mem_flat_high s off d' q' hs hd' this.2⟩
+  exact ⟨mem_flat_in s R d q hs hd this.1, mem_flat_in s R d' q' hs hd' this.2⟩
 
-theorem sep_firstRef (s : S) (off i d' : OId) (hs : Sep s off) (hi : off ≤ i) (hd : off ≤ d') :
-    Sep (s.firstRef i d') off ∧ LowEq (s.firstRef i d') s off := by
-  have hf : ∀ y, y ∈ s.flat d' → off ≤ y := fun y hy => mem_flat_high s off d' y hs hd hy
+theorem sep_firstRef (s : S) (R : OId → Prop) (i d' : OId) (hs : Sep s R) (hi : R i) (hd : R d') :
+    Sep (s.firstRef i d') R ∧ OutEq (s.firstRef i d') s R := by
+  have hf : ∀ y, y ∈ s.flat d' → R y := fun y hy => mem_flat_in s R d' y hs hd hy
   obtain ⟨b1,b2,b3,b4,b5,b6,b7,b8,b9,b10,b11,b12,b13,b14,b15,b16,b17,b18,b19,b20,b21,b22⟩ := hs
   simp only [S.firstRef]
   refine ⟨?_, ?_⟩ <;> constructor <;> grind
 
-theorem sep_dropRef (s : S) (off i : OId) (hs : Sep s off) (hi : off ≤ i) :
-    Sep (s.dropRef i) off ∧ LowEq (s.dropRef i) s off := by
+theorem sep_dropRef (s : S) (R : OId → Prop) (i : OId) (hs : Sep s R) (hi : R i) :
+    Sep (s.dropRef i) R ∧ OutEq (s.dropRef i) s R := by
   obtain ⟨b1,b2,b3,b4,b5,b6,b7,b8,b9,b10,b11,b12,b13,b14,b15,b16,b17,b18,b19,b20,b21,b22⟩ := hs
-  have hkeep : ∀ w, w < off → (s.wirePins w).filter (fun r => !r.isOuterOf i) = s.wirePins w := by
+  have hkeep : ∀ w, ¬ R w → (s.wirePins w).filter (fun r => !r.isOuterOf i) = s.wirePins w := by
     intro w hw
     rw [List.filter_eq_self]
     intro r hr
@@ -45,23 +41,19 @@ theorem sep_dropRef (s : S) (off i : OId) (hs : Sep s off) (hi : off ≤ i) :
     | outer i' q =>
       simp only [PinRef.isOuterOf, Bool.not_eq_true', beq_eq_false_iff_ne, ne_eq]
       intro e; subst e
-      have := (b21 w i' q hr).1.1 hw
-      exact absurd this (Nat.not_lt.mpr hi)
+      exact hw ((b21 w i' q hr).1.2 hi)
   simp only [S.dropRef]
   refine ⟨?_, ?_⟩ <;> constructor <;> grind [PinRef.isOuterOf]
 
-theorem sep_repoint (s : S) (off i d d' : OId) (hs : Sep s off) (hi : off ≤ i) (hr : s.instRef i = some d) (hd' : off ≤ d') :
-    Sep (s.repoint i d d') off ∧ LowEq (s.repoint i d d') s off := by
-  have hd : off ≤ d := by
-    have := hs.instRef i d hr
-    exact Nat.not_lt.mp (fun h => (Nat.not_lt.mpr hi) (this.2 h))
-  have hf : ∀ y, y ∈ s.flat d' → off ≤ y := fun y hy => mem_flat_high s off d' y hs hd' hy
-  have hp := fun q q' => partner_high s off d d' q q' hs hd hd'
-  have hp' := fun q q' => partner_high s off d' d q q' hs hd' hd
-  have nlt : ∀ {a : OId}, off ≤ a → ¬ a < off := fun h => Nat.not_lt.mpr h
+theorem sep_repoint (s : S) (R : OId → Prop) (i d d' : OId) (hs : Sep s R) (hi : R i) (hr : s.instRef i = some d) (hd' : R d') :
+    Sep (s.repoint i d d') R ∧ OutEq (s.repoint i d d') s R := by
+  have hd : R d := (hs.instRef i d hr).1 hi
+  have hf : ∀ y, y ∈ s.flat d' → R y := fun y hy => mem_flat_in s R d' y hs hd' hy
+  have hp := fun q q' => partner_in s R d d' q q' hs hd hd'
+  have hp' := fun q q' => partner_in s R d' d q q' hs hd' hd
   obtain ⟨b1,b2,b3,b4,b5,b6,b7,b8,b9,b10,b11,b12,b13,b14,b15,b16,b17,b18,b19,b20,b21,b22⟩ := hs
-  -- on low wires the re-keying map changes nothing
-  have hmap : ∀ w, w < off → (s.wirePins w).map (fun r => match r with
+  -- on outside wires the re-keying map changes nothing
+  have hmap : ∀ w, ¬ R w → (s.wirePins w).map (fun r => match r with
         | .inner q => PinRef.inner q
         | .outer i' q => if i' = i then (match s.partner d d' q with
                                           | some q' => PinRef.outer i q'
@@ -73,8 +65,7 @@ theorem sep_repoint (s : S) (off i d d' : OId) (hs : Sep s off) (hi : off ≤ i)
     cases r with
     | inner q => rfl
     | outer i' q =>
-      have := (b21 w i' q hr').1.1 hw
-      have hne : i' ≠ i := by intro e; subst e; exact nlt hi this
+      have hne : i' ≠ i := by intro e; subst e; exact hw ((b21 w i' q hr').1.2 hi)
       simp [hne]
   simp only [S.repoint, S.repointWith]
   refine ⟨⟨b1,b2,b3,b4,b5,b6,b7,b8,?_,?_,b11,b12,b13,b14,b15,b16,b17,b18,?_,?_,?_,?_⟩, ⟨?_, ?_, ?_⟩⟩
@@ -88,19 +79,19 @@ theorem sep_repoint (s : S) (off i d d' : OId) (hs : Sep s off) (hi : off ≤ i)
         simp only [hg] at h
         have h9 := b9 i' q w h
         have hq' := (hp' q' q hg).1
-        have hw : ¬ w < off := fun hw => nlt hi (h9.1.2 hw)
-        exact ⟨⟨fun a => absurd a (nlt hi), fun a => absurd a hw⟩, ⟨fun a => absurd a (nlt hq'), fun a => absurd a hw⟩⟩
+        have hw : R w := h9.1.1 hi
+        exact ⟨iff_of_true hi hw, iff_of_true hq' hw⟩
     · simp only [if_neg e] at h
       exact b9 i' q' w h
   · intro x y h
     by_cases e : x = i
     · subst e; simp at h; subst h
-      exact ⟨fun a => absurd a (nlt hi), fun a => absurd a (nlt hd')⟩
+      exact iff_of_true hi hd'
     · simp only [if_neg e] at h; exact b10 x y h
   · intro x y h
     by_cases e : x = i
     · subst e; simp only [if_true] at h
-      exact ⟨fun a => absurd a (nlt hi), fun a => absurd a (nlt (hf y h))⟩
+      exact iff_of_true hi (hf y h)
     · simp only [if_neg e] at h; exact b19 x y h
   · intro w q h
     simp only [List.mem_map] at h
@@ -126,8 +117,8 @@ theorem sep_repoint (s : S) (off i d d' : OId) (hs : Sep s off) (hi : off ≤ i)
         · rename_i q1 hq1
           simp only [PinRef.outer.injEq] at he
           obtain ⟨rfl, rfl⟩ := he
-          have hw : ¬ w < off := fun hw => nlt hi (e0 ▸ hb0.1.1 hw)
-          exact ⟨⟨fun a => absurd a hw, fun a => absurd a (nlt hi)⟩, ⟨fun a => absurd a hw, fun a => absurd a (nlt (hp q0 q1 hq1).2)⟩⟩
+          have hw : R w := hb0.1.2 (e0 ▸ hi)
+          exact ⟨iff_of_true hw hi, iff_of_true hw (hp q0 q1 hq1).2⟩
         · simp only [PinRef.outer.injEq] at he
           obtain ⟨rfl, rfl⟩ := he
           exact hb0
@@ -137,17 +128,17 @@ theorem sep_repoint (s : S) (off i d d' : OId) (hs : Sep s off) (hi : off ≤ i)
   · intro e i' h
     by_cases e1 : i' = i
     · subst e1; simp at h; subst h
-      exact ⟨fun a => absurd a (nlt hd'), fun a => absurd a (nlt hi)⟩
+      exact iff_of_true hd' hi
     · simp only [if_neg e1] at h; exact b22 e i' h
   · intro x hx
-    have hxi : x ≠ i := fun e => nlt hi (e ▸ hx)
+    have hxi : x ≠ i := fun e => hx (e ▸ hi)
     simp only [hxi, if_false, true_and, and_true]
     exact hmap x hx
   · intro i' q hi' hq
-    have : i' ≠ i := fun e => nlt hi (e ▸ hi')
+    have : i' ≠ i := fun e => hi' (e ▸ hi)
     simp [this]
   · intro e i' he hi'
-    have : i' ≠ i := fun e1 => nlt hi (e1 ▸ hi')
+    have : i' ≠ i := fun e1 => hi' (e1 ▸ hi)
     simp [this]
 
 end Spydr.IR
